@@ -231,8 +231,8 @@ pub fn merge_inputs(stdin: Option<&[u8]>, flags: &[String]) -> InputsResult {
                 }
             }
             Err(_) => {
-                // the CLI's read_to_string fails on invalid UTF-8 and the result is ignored:
-                // nothing usable was delivered
+                // not text, so not a JSON document: a malformed input source
+                return InputsResult::Malformed(0);
             }
         }
     }
